@@ -113,4 +113,104 @@ theorem paramOnlyRel_none (g g' : Genome W)
   unfold paramOnlyRel skeleton nodeSkeleton
   simp [hn, hg, ht]
 
+/-! ### the structural relations from facts about their filters
+
+`oldP g` = "carries a number of the old genome" is the test by which the relations split the result's genes into
+kept and new ones. -/
+
+/-- "the gene carries one of the old innovation numbers" -/
+abbrev oldP (g : Genome W) : Gene W → Bool := fun x => (g.genes.map (·.inn)).contains x.inn
+
+theorem filter_oldP_self (g : Genome W) : g.genes.filter (oldP g) = g.genes :=
+  List.filter_eq_self.mpr (fun a ha => by simpa [oldP] using ⟨a, ha, rfl⟩)
+
+theorem filter_not_oldP_self (g : Genome W) : g.genes.filter (fun x => !oldP g x) = [] :=
+  List.filter_eq_nil_iff.mpr (fun a ha => by simpa [oldP] using ⟨a, ha, rfl⟩)
+
+theorem addLinkRel_none (weq : W → W → Bool) (hrefl : ∀ a, weq a a = true) (g g' : Genome W) (x : Gene W)
+    (ht : g'.traits = g.traits) (hn : g'.nodes = g.nodes)
+    (hkept : g'.genes.filter (oldP g) = g.genes) (hnew : g'.genes.filter (fun y => !oldP g y) = [x])
+    (h1 : g.nodes.any (·.id == x.src) = true) (h2 : g.nodes.any (·.id == x.dst) = true)
+    (h3 : g.genes.any (fun y => y.src == x.src && y.dst == x.dst && y.recur == x.recur) = false)
+    (h4 : g.nodes.any (fun n => n.id == x.dst && n.isSensor) = false) : addLinkRel weq g g' = none := by
+  unfold addLinkRel
+  simp only [oldP] at hkept hnew
+  simp only [hkept, hnew, ht, hn, traitsEq_refl weq hrefl, genesEq_refl weq hrefl, h1, h2, h3, h4, bne_self_eq_false,
+    Bool.not_true, Bool.false_eq_true, ↓reduceIte, Bool.and_self]
+
+theorem connectSensorsRel_none_false (weq : W → W → Bool) (hrefl : ∀ a, weq a a = true) (g : Genome W) :
+    connectSensorsRel weq g g false = none := by
+  have h1 := filter_oldP_self g
+  have h2 := filter_not_oldP_self g
+  unfold connectSensorsRel
+  simp only [oldP] at h1 h2
+  simp only [h1, h2, traitsEq_refl weq hrefl, genesEq_refl weq hrefl, bne_self_eq_false,
+    Bool.not_true, Bool.false_eq_true, ↓reduceIte]
+
+theorem connectSensorsRel_none_true (weq : W → W → Bool) (hrefl : ∀ a, weq a a = true) (g g' : Genome W)
+    (N : List (Gene W)) (sensor : Node)
+    (ht : g'.traits = g.traits) (hn : g'.nodes = g.nodes)
+    (hkept : g'.genes.filter (oldP g) = g.genes) (hnew : g'.genes.filter (fun y => !oldP g y) = N) (hne : N ≠ [])
+    (hsrc : ∀ x ∈ N, x.src = sensor.id) (hs : sensor ∈ g.nodes) (hsens : sensor.isSensor = true)
+    (hun : ∀ y ∈ g.genes, y.src ≠ sensor.id)
+    (htgt : ∀ x ∈ N, ∃ o ∈ g.nodes, o.isSensor = false ∧ o.id = x.dst)
+    (hnd : (N.map (·.dst)).Nodup)
+    (hcover : ∀ o ∈ g.nodes, o.isSensor = false → ∃ x ∈ N, x.dst = o.id) : connectSensorsRel weq g g' true = none := by
+  unfold connectSensorsRel
+  simp only [oldP] at hkept hnew
+  simp only [hkept, hnew, ht, hn, traitsEq_refl weq hrefl, genesEq_refl weq hrefl, bne_self_eq_false,
+    Bool.not_true, Bool.false_eq_true, ↓reduceIte]
+  cases N with
+  | nil => exact absurd rfl hne
+  | cons x t =>
+    have hx : x.src = sensor.id := hsrc x List.mem_cons_self
+    have c1 : (x :: t).all (·.src == x.src) = true :=
+      List.all_eq_true.mpr (fun y hy => by simp [hsrc y hy, hx])
+    have c2 : g.nodes.any (fun n => n.id == x.src && n.isSensor) = true :=
+      List.any_eq_true.mpr ⟨sensor, hs, by simp [hx, hsens]⟩
+    have c3 : g.genes.any (·.src == x.src) = false := by
+      rw [List.any_eq_false]; intro y hy; rw [hx]; simpa using hun y hy
+    have c4 : (x :: t).all (fun y => g.nodes.any (fun n => n.id == y.dst && !n.isSensor)) = true :=
+      List.all_eq_true.mpr (fun y hy => by
+        obtain ⟨o, ho, hos, hod⟩ := htgt y hy
+        exact List.any_eq_true.mpr ⟨o, ho, by simp [hod, hos]⟩)
+    have c5 : (decide ((List.map (·.dst) (x :: t)).Nodup) == false) = false := by
+      rw [decide_eq_true hnd]; rfl
+    have c6 : (g.nodes.filter (fun n => !n.isSensor)).all (fun n => (x :: t).any (·.dst == n.id)) = true :=
+      List.all_eq_true.mpr (fun o ho => by
+        have ho' := List.mem_filter.mp ho
+        obtain ⟨y, hy, hyd⟩ := hcover o ho'.1 (by simpa using ho'.2)
+        exact List.any_eq_true.mpr ⟨y, hy, by simp [hyd]⟩)
+    simp only [c1, c2, c3, c4, c5, c6, Bool.not_true, Bool.false_eq_true, ↓reduceIte, Bool.and_false]
+
+variable [Scalar W]
+
+theorem addNodeRel_none (weq : W → W → Bool) (hrefl : ∀ a, weq a a = true) (g g' : Genome W) (n : Node)
+    (x1 x2 old : Gene W) (k : Nat)
+    (ht : g'.traits = g.traits)
+    (hnewN : g'.nodes.filter (fun m => !g.nodes.any (·.id == m.id)) = [n])
+    (holdN : g'.nodes.filter (fun m => g.nodes.any (·.id == m.id)) = g.nodes)
+    (hkept : g'.genes.filter (oldP g) = g.genes.modify k (fun x => { x with en := false }))
+    (hnewG : g'.genes.filter (fun y => !oldP g y) = [x1, x2] ∨ g'.genes.filter (fun y => !oldP g y) = [x2, x1])
+    (hk : g.genes[k]? = some old) (hen : old.en = true)
+    (hbias : ∀ s, nodeById g.nodes old.src = some s → s.kind ≠ Kind.bias)
+    (hkind : n.kind = Kind.hidden)
+    (hx1 : x1.src = old.src ∧ x1.dst = n.id ∧ x1.w = one ∧ x1.recur = old.recur ∧ x1.en = true)
+    (hx2 : x2.src = n.id ∧ x2.dst = old.dst ∧ x2.w = old.w ∧ x2.recur = false ∧ x2.en = true)
+    (hne : old.dst ≠ n.id) : addNodeRel weq g g' = none := by
+  have hchg := zip_modify_changed (geneEq weq) (geneEq_refl weq hrefl) (fun x : Gene W => { x with en := false }) g.genes k old hk
+    (by simp [geneEq, hen])
+  unfold addNodeRel
+  simp only [oldP] at hkept hnewG
+  simp only [hkept, ht, hnewN, holdN, hchg, traitsEq_refl weq hrefl, List.length_modify, bne_self_eq_false,
+    Bool.not_true, Bool.false_eq_true, ↓reduceIte]
+  obtain ⟨a1, a2, a3, a4, a5⟩ := hx1
+  obtain ⟨b1, b2, b3, b4, b5⟩ := hx2
+  rcases hnewG with e | e <;> rw [e] <;>
+    simp [hkind, hen, geneEq_refl weq hrefl, a1, a2, a3, a4, a5, b1, b2, b3, b4, b5, hrefl, hne]
+  all_goals
+    cases hs : nodeById g.nodes old.src with
+    | none => rfl
+    | some s => simpa using hbias s hs
+
 end GoNeat.C05
